@@ -204,6 +204,29 @@ func usesOf(p *Program, v ssa.Value) []ssa.Instruction {
 				visit(y)
 			case *ssa.FieldAddr:
 				// field access on the T: harmless
+			case *ssa.Return:
+				// returned by a transparent helper (a constructor wrapper): the uses of the call's value
+				if site, ok := p.helperSite(y.Parent()).(*ssa.Call); ok && site != nil {
+					followed := false
+					for k, rs := range y.Results {
+						if rs != x {
+							continue
+						}
+						if len(y.Results) == 1 {
+							visit(site)
+							followed = true
+						} else {
+							for _, e := range extractsOf(site, k) {
+								visit(e)
+								followed = true
+							}
+						}
+					}
+					if followed {
+						continue
+					}
+				}
+				out = append(out, ref)
 			case *ssa.Call:
 				// argument of a transparent helper: the uses of the corresponding parameter
 				if h := transparentCallee(y); h != nil {
